@@ -73,25 +73,31 @@ Proof.
   split; [exact (unescape_encode t) | exact (unescape_attval t)].
 Qed.
 
-(* The re-parse path of signatures, colourised values and docstrings: for every text of XML Chars and C0 controls -- FORM
-   FEED and NO-BREAK SPACE excepted -- html2stan (encode t) is the transparent tag holding ONE text node (none for the empty
-   text): the text itself, line ends normalised, each control character neutralised by stanutils._RE_CONTROL's substitute.
-   No element, no attribute can come out of t. *)
+(* The re-parse path of signatures, colourised values and docstrings: for every text of XML Chars and C0 controls --
+   NO-BREAK SPACE excepted -- html2stan (encode t) is the transparent tag holding ONE text node (none for the empty text):
+   the text itself, line ends normalised, each control character (FORM FEED included, since the repair cc2b510) neutralised
+   by stanutils._RE_CONTROL's substitute.  No element, no attribute can come out of t. *)
 Theorem C10_html2stan_roundtrip_partial :
   forall t, forallb reparse_ok t = true ->
     html2stan (encode t) = H2Ok (STag [] [] (text_kids (neutralise (eol_norm t)))).
 Proof. exact html2stan_encode. Qed.
 
-(* ... and on the unchanged tree it does fail for the two excepted characters: the parser raises, the caller drops the
-   whole signature / value / docstring rendering (known findings C10-formfeed-reparse, C10-nbsp-reparse). *)
-Theorem C10_html2stan_roundtrip_refuted :
-  html2stan (encode [12]) = H2ParseError /\ html2stan (encode [160]) = H2ParseError.
-Proof. split; [exact html2stan_formfeed | exact html2stan_nbsp]. Qed.
+(* ... and on the unchanged tree it does fail for the excepted character: the parser raises, the caller drops the whole
+   signature / value / docstring rendering (known finding C10-nbsp-reparse). *)
+Theorem C10_html2stan_roundtrip_refuted : html2stan (encode [160]) = H2ParseError.
+Proof. exact html2stan_nbsp. Qed.
+
+(* Before the repair cc2b510 the control class exempted FORM FEED, which XML forbids: the path failed on it too.
+   With the repaired class it is shown as the four characters backslash x 0 c. *)
+Theorem C10_html2stan_formfeed_old_refuted :
+  html2stan_old (encode [12]) = H2ParseError /\
+  html2stan (encode [12]) = H2Ok (STag [] [] [SText [92; 120; 48; 99]]).
+Proof. exact html2stan_formfeed_old. Qed.
 
 Example C10_html2stan_hypotheses_satisfiable :
-  forallb reparse_ok (nasty ++ [1; 13; 10; 11; 31]) = true /\
-  html2stan (encode (nasty ++ [1; 13; 10; 11; 31]))
-  = H2Ok (STag [] [] [SText (nasty ++ [92; 120; 48; 49; 10; 92; 120; 48; 98; 92; 120; 49; 102])]).
+  forallb reparse_ok (nasty ++ [1; 13; 10; 11; 12; 31]) = true /\
+  html2stan (encode (nasty ++ [1; 13; 10; 11; 12; 31]))
+  = H2Ok (STag [] [] [SText (nasty ++ [92; 120; 48; 49; 10; 92; 120; 48; 98; 92; 120; 48; 99; 92; 120; 49; 102])]).
 Proof. split; vm_compute; reflexivity. Qed.
 
 (* Start tags of the docutils writer as pydoctor drives it (rst- prefixing, heading class, class / id merging): whatever
